@@ -19,13 +19,14 @@ pub enum ErrKind {
     WouldBlock,
     TimedOut,
     UnexpectedEof,
+    InvalidData,
     WriteZero,
     Crash,
     /// only injected on flush calls (on a write it is a retry request)
     Interrupted,
 }
 
-pub const INJECTABLE: [ErrKind; 7] = [
+pub const INJECTABLE: [ErrKind; 8] = [
     ErrKind::Other,
     ErrKind::BrokenPipe,
     ErrKind::PermissionDenied,
@@ -33,6 +34,7 @@ pub const INJECTABLE: [ErrKind; 7] = [
     ErrKind::WouldBlock,
     ErrKind::TimedOut,
     ErrKind::UnexpectedEof,
+    ErrKind::InvalidData,
 ];
 
 impl ErrKind {
@@ -45,6 +47,7 @@ impl ErrKind {
             ErrKind::WouldBlock => "WouldBlock",
             ErrKind::TimedOut => "TimedOut",
             ErrKind::UnexpectedEof => "UnexpectedEof",
+            ErrKind::InvalidData => "InvalidData",
             ErrKind::WriteZero => "WriteZero",
             ErrKind::Crash => "Crash",
             ErrKind::Interrupted => "Interrupted",
@@ -59,6 +62,7 @@ impl ErrKind {
             "WouldBlock" => ErrKind::WouldBlock,
             "TimedOut" => ErrKind::TimedOut,
             "UnexpectedEof" => ErrKind::UnexpectedEof,
+            "InvalidData" => ErrKind::InvalidData,
             "WriteZero" => ErrKind::WriteZero,
             "Crash" => ErrKind::Crash,
             "Interrupted" => ErrKind::Interrupted,
@@ -74,6 +78,7 @@ impl ErrKind {
             ErrKind::WouldBlock => io::ErrorKind::WouldBlock,
             ErrKind::TimedOut => io::ErrorKind::TimedOut,
             ErrKind::UnexpectedEof => io::ErrorKind::UnexpectedEof,
+            ErrKind::InvalidData => io::ErrorKind::InvalidData,
             ErrKind::WriteZero => io::ErrorKind::WriteZero,
             // a crashed process observes nothing; the simulated caller sees
             // an error of a kind nothing else produces
@@ -90,6 +95,7 @@ impl ErrKind {
             io::ErrorKind::WouldBlock => ErrKind::WouldBlock,
             io::ErrorKind::TimedOut => ErrKind::TimedOut,
             io::ErrorKind::UnexpectedEof => ErrKind::UnexpectedEof,
+            io::ErrorKind::InvalidData => ErrKind::InvalidData,
             io::ErrorKind::WriteZero => ErrKind::WriteZero,
             io::ErrorKind::ConnectionAborted => ErrKind::Crash,
             io::ErrorKind::Interrupted => ErrKind::Interrupted,
@@ -381,8 +387,8 @@ impl SinkState {
                     }
                 }
                 Shape::Storm => {
-                    if self.intr_run > 0 && self.intr_run < 8 {
-                        if rng.chance(3, 4) {
+                    if self.intr_run > 0 && self.intr_run < 40 {
+                        if rng.chance(9, 10) {
                             WStep::Intr
                         } else {
                             WStep::Full
